@@ -267,7 +267,13 @@ func (t *Thread) end(args []Value, err error, exception interface{}) {
 	close(t.resumeCh)
 	t.status = ThreadDead
 	t.caller = nil
-	err = t.cleanupCloseStack(nil, 0, err) // TODO: not nil
+	if _, terminated := exception.(ContextTerminationError); terminated {
+		// The context was terminated: no Lua code may run in it any more, so
+		// the pending to-be-closed values are discarded.
+		t.closeStack.truncate(0)
+	} else {
+		err = t.cleanupCloseStack(nil, 0, err) // TODO: not nil
+	}
 	t.closeErr = err
 	// Release before handing control back: afterwards the caller is running
 	// and owns the runtime.
